@@ -233,6 +233,42 @@ func runC16Once(c c16Case, st *hx.Stats) (c16Result, error) {
 		if err != nil {
 			return res, err
 		}
+		if c.Trickle {
+			// the client does not fall silent after the cut either: bytes keep arriving at short intervals. The connection
+			// is closed and what it held is released all the same - not only once the client has become quiet
+			stop2, done2 := make(chan struct{}), make(chan struct{})
+			go func() {
+				defer close(done2)
+				for {
+					select {
+					case <-stop2:
+						return
+					case <-time.After(40 * time.Millisecond):
+					}
+					if conn.Send([]byte{0}) != nil {
+						return // the server has closed: the write fails, as it should
+					}
+				}
+			}()
+			ok := waitFor(slack+2*time.Second, func() bool {
+				if leaked != nil {
+					return len(leaked()) == 0
+				}
+				return fdCount == nil || baseFD < 0 || fdCount() <= baseFD
+			})
+			close(stop2)
+			<-done2
+			if !ok {
+				held := ""
+				if leaked != nil {
+					held = fmt.Sprint(leaked())
+				}
+				return res, hx.Failf("released-after-cut", "%s: cut, but while the client keeps sending a byte every 40 ms what the connection held is not released %s", what, held)
+			}
+			if st != nil {
+				st.Label("client keeps trickling after the cut: released all the same")
+			}
+		}
 	case "active":
 		gap := T * time.Duration(c.GapPct) / 100
 		end := time.Now().Add(T * time.Duration(c.Mult))
